@@ -31,7 +31,8 @@ RULE = ("cases = (system, N, family/variant, group of <=4 calculators); each cas
 ASSUMPTIONS = [
     "grid sizes N from a fixed alphabet (<=12 points per direction, <=81 k-points); systems: Chiral, Haldane, "
     "KaneMele (pythtb, internal terms only), two zoo System_R with all external matrices (one whose "
-    "NKFFT_recommended exceeds every FFT used), one analytic 2-band k.p model",
+    "NKFFT_recommended exceeds every FFT used), one analytic 2-band k.p model, one System_R with the phonon flag "
+    "(DOS, CumDOS, Energy only)",
     "k.p model only on odd N (a grid point exactly on the box boundary k=+-1/2 is a tie of the non-periodic model) "
     "and only with analytic derivatives",
     "use_irred_kpt=False, symmetrize=False, adpt_num_iter=0, parallel=False (symmetry reduction, refinement and "
@@ -73,6 +74,7 @@ FLAGS = {
     "zoo": {"SS": True, "internal_only": False, "kp": False, "CCab": False, "spin_ext": True},
     "zoo_lop": {"SS": True, "internal_only": False, "kp": False, "CCab": False, "spin_ext": False},
     "kp": {"SS": False, "internal_only": True, "kp": True, "CCab": False, "spin_ext": False},
+    "phonon": {"SS": False, "internal_only": False, "kp": False, "CCab": False, "spin_ext": False},
 }
 # matrices zoo_lop does not carry (only Ham, AA, SS): calculators needing BB/CC/GG/... are not applicable there
 LOP_STATIC = ("CumDOS", "DOS", "AHC", "Ohmic_FermiSea", "Ohmic_FermiSurf", "BerryDipole_FermiSea",
@@ -86,7 +88,7 @@ LOP_TAB = ("Energy", "BerryCurvature", "Velocity", "InvMass", "Der3E", "DerBerry
 
 def cases(tier, seed):
     from wbmc import gridrun as G
-    systems = ("chiral", "haldane", "zoo", "kp", "zoo_lop", "kanemele")
+    systems = ("chiral", "haldane", "zoo", "kp", "zoo_lop", "kanemele", "phonon")
     for sysname in systems:
         fl = FLAGS[sysname]
         stat = list(G.STATIC_CORE) + (list(G.STATIC_REST) if tier == "thorough" else [])
@@ -95,6 +97,8 @@ def cases(tier, seed):
         stat = [c for c in stat if G.static_applicable(c, fl)]
         dyn = [c for c in dyn if G.dyn_applicable(c, fl)]
         tab = [c for c in tab if G.tab_applicable(c, fl)]
+        if sysname == "phonon":       # only the spectrum is defined for phonons (frequencies = sqrt of the eigenvalues)
+            stat, dyn, tab = ["CumDOS", "DOS"], [], ["Energy"]
         if sysname == "zoo_lop":
             stat = [c for c in stat if c in LOP_STATIC]
             dyn = [c for c in dyn if c in LOP_DYN]
